@@ -113,3 +113,5 @@ func ForkGoroutineOrder(on bool)
 
 // Rec returns what the transport recorders (tls/x509/grpc/net models) saw; symbolic executor only.
 func Rec(key string) string
+
+func ModelOpensKeepLockGuard() bool
